@@ -235,6 +235,16 @@ example : evalE (envOf [("y", 5)]) (.compr (embedS (.mul (.var "x") (.lit 10)))
   rw [h, hv]
   rfl
 
+/-- the hypotheses of `PIPE_comprehension_arith` are satisfiable: `{(1+2)*3 : x in 1..3, y in {4, 5}, 2-1}` -/
+example (env : Env) :
+    powersModelled (.bin .mul (.bin .add (.lit 1) (.lit 2)) (.lit 3)) = true ∧
+    (∀ c ∈ [AExp.bin .sub (.lit 2) (.lit 1)], powersModelled c = true) ∧
+    List.Forall₂ (fun (g : String × Ast) (a : List Val) => evalE env g.2 = .ok (.arr a))
+      [("x", (IntGen.range 1 3).toAst), ("y", (IntGen.lit [4, 5]).toAst)]
+      [(Arr.range 1 3).map valOf, [valOf 4, valOf 5]] := by
+  refine ⟨by decide, by decide, ?_⟩
+  refine .cons (evalE_intGen env (.range 1 3) (by decide)) (.cons (evalE_intGen env (.lit [4, 5]) rfl) .nil)
+
 /-- the simulation relation is inhabited by every session of the C14 model and by the identity -/
 example : EnvSim valOf (envOf [("x", 1), ("true", 1)]) [("x", 1), ("true", 1)] ∧ EnvSim (fun v => v) initialEnv initialEnv :=
   ⟨envSim_envOf _, envSim_id _⟩
